@@ -14,20 +14,53 @@ struct Res {
 // preemption inside a give-back: when armed, `reset` (called by give_back_resource before it takes the pool's locks)
 // runs one complete refresh of another user, as the Kani harness does
 static mut PRE_POOL: *const ResourcePool<Res> = std::ptr::null();
-static mut PRE_ARMED: Option<usize> = None;
+// Some((kind, value)): kind 0 = refresh with `value` refills, kind 1 = raw give-back of a resource of generation `value`
+static mut PRE_ARMED: Option<(u8, u64)> = None;
+static mut PRE_THREAD: Option<std::thread::JoinHandle<()>> = None;
+static mut PRE_THREADED: bool = false;
 
 impl Reset for Res {
     fn reset(&mut self) -> mithril_resource_pool_std_result::R {
         unsafe {
-            if let Some(refill) = PRE_ARMED.take() {
+            if let Some((kind, value)) = PRE_ARMED.take() {
                 if !PRE_POOL.is_null() {
-                    let pool = &*PRE_POOL;
-                    let dn = pool.discriminant().unwrap() + 1;
-                    pool.set_discriminant(dn).unwrap();
-                    pool.clear();
-                    for _ in 0..refill {
-                        pool.give_back_resource(Res { generation: dn }, dn).unwrap();
+                    // the other user runs on its own thread: if the pool's lock is held around this reset (bulk reset), it simply
+                    // blocks until the operation is over — no interleaving — instead of dead-locking this thread
+                    let pool: &'static ResourcePool<Res> = std::mem::transmute(&*PRE_POOL);
+                    if !PRE_THREADED {
+                        // give-back paths reset the resource before taking the pool's lock: the other user's operation runs inline
+                        if kind == 0 {
+                            let dn = pool.discriminant().unwrap() + 1;
+                            pool.set_discriminant(dn).unwrap();
+                            pool.clear();
+                            for _ in 0..value {
+                                pool.give_back_resource(Res { generation: dn }, dn).unwrap();
+                            }
+                        } else {
+                            pool.give_back_resource(Res { generation: value }, value).unwrap();
+                        }
+                        return Ok(());
                     }
+                    let done = std::sync::Arc::new(std::sync::atomic::AtomicBool::new(false));
+                    let done2 = done.clone();
+                    let h = std::thread::spawn(move || {
+                        if kind == 0 {
+                            let dn = pool.discriminant().unwrap() + 1;
+                            pool.set_discriminant(dn).unwrap();
+                            pool.clear();
+                            for _ in 0..value {
+                                pool.give_back_resource(Res { generation: dn }, dn).unwrap();
+                            }
+                        } else {
+                            pool.give_back_resource(Res { generation: value }, value).unwrap();
+                        }
+                        done2.store(true, std::sync::atomic::Ordering::SeqCst);
+                    });
+                    for _ in 0..10 {
+                        if done.load(std::sync::atomic::Ordering::SeqCst) { break; }
+                        std::thread::sleep(Duration::from_micros(200));
+                    }
+                    PRE_THREAD = Some(h);
                 }
             }
         }
@@ -67,13 +100,19 @@ fn run(idle: usize, size: usize, ops: &[String], g0: u64, raw: &[u64], paths: &[
         }
     };
     for op in ops {
-        let (opn, pre) = match op.strip_suffix('!') {
-            Some(o) => (o, true),
-            None => (op.as_str(), false),
+        // "<op>!F<n>" = during the reset inside <op>, another user refreshes with n refills; "<op>!R<k>" = another user gives back
+        // a raw resource of generation g0 + k - 1 (k = 0..3); "<op>!" = "<op>!F0"
+        let (opn, pre) = match op.split_once('!') {
+            Some((o, "")) => (o, Some((0u8, 0u64))),
+            Some((o, p)) if p.starts_with('F') => (o, Some((0u8, p[1..].parse::<u64>().unwrap()))),
+            Some((o, p)) if p.starts_with('R') => (o, Some((1u8, (g0 + p[1..].parse::<u64>().unwrap()).saturating_sub(1)))),
+            _ => (op.as_str(), None),
         };
-        if pre {
+        if pre.is_some() {
             unsafe {
-                PRE_ARMED = Some(0);
+                PRE_ARMED = pre;
+                // the bulk reset may hold the pool's lock around Reset::reset: there the other user runs on its own thread
+                PRE_THREADED = opn == "X";
             }
         }
         match opn {
@@ -112,6 +151,9 @@ fn run(idle: usize, size: usize, ops: &[String], g0: u64, raw: &[u64], paths: &[
         }
         unsafe {
             PRE_ARMED = None;
+            if let Some(h) = PRE_THREAD.take() {
+                let _ = h.join();
+            }
         }
         if pool.count().unwrap() > pool.size() {
             return Some("pool-exceeds-size".into());
@@ -137,13 +179,17 @@ fn run(idle: usize, size: usize, ops: &[String], g0: u64, raw: &[u64], paths: &[
 }
 
 fn search(idle: usize, size: usize, ops: &[String]) -> Option<String> {
-    let n_raw = ops.iter().filter(|o| *o == "R" || *o == "R!").count().max(1);
+    let has_raw = ops.iter().any(|o| o.as_str() == "R" || o.starts_with("R!"));
+    let n_raw = ops.iter().filter(|o| o.as_str() == "R" || o.starts_with("R!")).count().max(1);
+    // give-back paths (explicit vs drop) only matter for items that are acquired at some point
+    let n_acq = ops.iter().filter(|o| o.starts_with('A')).count().min(4);
+    let n_masks: u32 = 1 << n_acq;
     for g0 in [5u64, 0] {
-        let cands: Vec<u64> = (g0.saturating_sub(1)..=g0 + 4).collect();
+        let cands: Vec<u64> = if has_raw { (g0.saturating_sub(1)..=g0 + 4).collect() } else { vec![g0] };
         let mut idx = vec![0usize; n_raw];
         loop {
             let raw: Vec<u64> = idx.iter().map(|i| cands[*i]).collect();
-            for pm in 0..16u32 {
+            for pm in 0..n_masks {
                 let paths: Vec<bool> = (0..4).map(|b| pm & (1 << b) != 0).collect();
                 if let Some(what) = run(idle, size, ops, g0, &raw, &paths) {
                     return Some(format!("{} ops={:?} g0={} raw={:?} explicit_give_back={:?}", what, ops, g0, raw, paths));
@@ -193,8 +239,14 @@ fn main() {
         alphabet.push("B1".into());
     }
     if a.len() > 5 && a[5] == "preempt" {
-        alphabet.push("B0!".into());
-        alphabet.push("R!".into());
+        for base in ["B0", "R", "X"] {
+            for j in 0..=size.min(2) {
+                alphabet.push(format!("{}!F{}", base, j));
+            }
+            for k in 0..4 {
+                alphabet.push(format!("{}!R{}", base, k));
+            }
+        }
     }
     let mut found = std::collections::BTreeMap::new();
     let mut count = 0u64;
